@@ -172,10 +172,22 @@ def _constructed():
 
     out = {"evals": 0, "nontrivial": 0, "failures": [], "samples": [], "extra": {"single_segment_bins": 0}}
     M2S = (0.0, 1e-9, 2.5, 1e-300, 1e-40, 1e40, 1e300)   # scatter in ordinary and in extreme units
-    for fs, S2, iscsd in itertools.product((1.0, 1000.0, 3e-8, 4e7), (0.3, 40.0), (True, False)):
+    for fs, S2, iscsd, plotted in itertools.product((1.0, 1000.0, 3e-8, 4e7), (0.3, 40.0), (True, False), (False, True)):
         pts = [(0.5, n, 1.0, 2.0, 1.0) for n in (1, 2, 7, 1000) for _ in M2S]
         m2 = np.array([m for _ in (1, 2, 7, 1000) for m in M2S])
         r = build_result(fs, S2, iscsd, pts, m2=m2.copy())
+        if plotted:
+            if fs not in (1.0, 1000.0):
+                continue
+            # a result that has been drawn with error bands first (drawing reads the deviations; it must not change them)
+            import matplotlib
+            matplotlib.use("Agg", force=False)
+            import matplotlib.pyplot as plt
+            for which in ((None, "coh", "csd") if iscsd else (None, "psd", "asd")):
+                try:
+                    plt.close(r.plot(which, errors=True, sigma=2)[0])
+                except Exception:  # noqa: BLE001
+                    plt.close("all")
         n = np.array([p[1] for p in pts], dtype=float)
         want_var = m2 / n
         got = {k: getattr(r, k) for k in ("XY_M2", "XY_emp_var", "XY_emp_dev", "Gxx_emp_dev", "Gxy_emp_dev")}
@@ -198,8 +210,8 @@ def _constructed():
             if not np.allclose(g, np.sqrt(want_var) * 2 / (fs * S2), rtol=1e-12, atol=0):
                 prob.append("G_emp_dev")
         if prob:
-            out["failures"].append(fw.fail(f"constructed/{'csd' if iscsd else 'auto'}/{'+'.join(prob)}",
-                                           f"constructed result fs={fs} S2={S2}: {prob}; got { {k: (None if v is None else np.asarray(v).tolist()) for k, v in got.items()} }",
+            out["failures"].append(fw.fail(f"constructed{'-after-plot' if plotted else ''}/{'csd' if iscsd else 'auto'}/{'+'.join(prob)}",
+                                           f"constructed result{' (after plot calls with error bands)' if plotted else ''} fs={fs} S2={S2}: {prob}; got { {k: (None if v is None else np.asarray(v).tolist()) for k, v in got.items()} }",
                                            {"part": "constructed"}))
     out["samples"].append({"constructed grid": "M2 in {0,1e-300,1e-40,1e-9,2.5,1e40,1e300} x navg in {1,2,7,1000} x S2 x fs x auto|cross"})
     return out
